@@ -186,6 +186,21 @@ def replay(inputs):
     return {"violated": v, "region": region}
 
 
+def replay_family(inputs):
+    """replay driver for the conditional-request clauses of one application (Files / Pages on one interface): the solver's
+    counterexample for such a clause is a header list over abstract strings, which has no meaning for a real file - it is
+    instantiated by this fixed family: every validator form after no / every single modification."""
+    mods = [("rewrite_same", 0), ("rewrite_same", 1), ("rewrite_other", 0), ("rewrite_other", 2), ("touch", 0), ("touch", 1)]
+    out = []
+    for m in [None] + mods:
+        for form in FORMS:
+            h = [("get",)] + ([m] if m else []) + [("cond", 0, form)]
+            v, region = check(inputs["kind"], inputs["iface"], h)
+            if v and region is None:
+                out.append("%s: %s" % (h, v[0]))
+    return {"violated": out[:5]}
+
+
 def bounded(tier, seed):
     rng = random.Random(seed)
     evals = 0
